@@ -20,7 +20,7 @@ by the harness; a disagreement if it ever shows up).
 namespace PyGam.TA
 
 /-- exception classes (`unsupported`: outside the modelled universe) -/
-inductive Err | value | type | attribute | index | key | unsupported
+inductive Err | value | type | attribute | index | key | name | unsupported
   deriving DecidableEq, Repr
 
 /-- scalars -/
@@ -248,9 +248,11 @@ def checkAll : List Sc → Except Err Unit
   | [] => .ok ()
   | s :: r => do checkSc s; checkAll r
 
-/-- `check_param` on a value -/
+/-- `check_param` on a value (an empty list makes the `eval` of the constraint fail with a `NameError`:
+`repr(np.array([]))` mentions `float64`) -/
 def checkParam : Val → Except Err Unit
   | .sc s => checkSc s
+  | .list [] => .error .name
   | .list l => checkAll l
 
 /-- `[x] * k if len == 1` -/
